@@ -329,6 +329,48 @@ def _set_policy(rule, val):
         raise RuntimeError('policy file not loaded as written: %r instead of %r' % (got, want))
 
 
+def _edit_policy(content):
+    """the operator edits the policy file of the RUNNING service (no restart, no policy.reset()): oslo.policy notices
+    the newer modification time at the next check"""
+    pf = _W['pf']
+    with open(pf, 'w') as f:
+        f.write(json.dumps(content) + '\n')
+    _W['mtime'] = max(_W.get('mtime', 0), os.stat(pf).st_mtime, time.time()) + 2
+    os.utime(pf, (_W['mtime'], _W['mtime']))
+
+
+RELOAD_SEQ = ['grant', 'default', 'deny', 'default', 'grant', 'other', 'deny', 'other', 'default']
+
+
+def _run_reload(task):
+    """decisions of a service whose policy file is edited while it runs = decisions of a service started with the
+    file as it then reads (an override the operator removes or replaces stops deciding requests)"""
+    kind, (rule, other, keys), _v = task
+    cl = callers()
+    reqs = _W['reqs']
+    contents = {'default': {}, 'grant': {rule: '@'}, 'deny': {rule: '!'}, 'other': {other: '@'}}
+
+    def statuses():
+        out = []
+        for key in keys:
+            cpath, q, body = reqs[tuple(key)]
+            full = cpath + ('?' + q if q else '')
+            out.append([_one(key[1], full, {'body': body}, c)[0] for c in cl])
+        return out
+    fresh = {}
+    for name, content in contents.items():
+        (r, v) = list(content.items())[0] if content else (None, None)
+        _set_policy(r, v)
+        fresh[name] = statuses()
+    _set_policy(None, None)
+    seen = []
+    for name in RELOAD_SEQ:
+        _edit_policy(contents[name])
+        seen.append(statuses())
+    _set_policy(None, None)
+    return kind, (rule, other, keys), (fresh, seen), None
+
+
 def _one(method, full_path, kw, caller):
     app, log = _W['app'], _W['log']
     app.restore(_W['snap'])
@@ -354,6 +396,8 @@ VARIANTS = {'valid': None, 'empty-object': b'{}', 'malformed': b'{"not json'}
 def _run_table(task):
     kind, table, variants = task
     cl = callers()
+    if kind == 'reload':
+        return _run_reload(task)
     if kind == 'gates':
         _set_policy(None, None)
         res = []
@@ -499,6 +543,14 @@ def _run(chk, scratch):
     # ---- the real application, in parallel
     variants = ['valid'] if chk.tier == 'quick' else ['valid', 'empty-object', 'malformed']
     tasks = [('gates', None, variants)] + [('table', t, variants) for t in tbls]
+    # policy file edited while the service runs: a sample of rules (all of them in the thorough tier), each on the
+    # routes it guards, with another rule as the "different override"
+    rnames = sorted(r for r in rules if rules[r])
+    picked = rnames if chk.tier != 'quick' else chk.rng.sample(rnames, min(8, len(rnames)))
+    for r in picked:
+        other = chk.rng.choice([x for x in rnames if x != r])
+        rkeys = sorted([list(k[::-1]) for k in rules[r]])[:4]
+        tasks.append(('reload', (r, other, rkeys), None))
     nproc = min(16, os.cpu_count() or 4, len(tasks))
     ctx = multiprocessing.get_context('fork')
     with ppool.Pool(ctx, nproc, initializer=_worker_init, initargs=(scratch,)) as pool:
@@ -507,6 +559,27 @@ def _run(chk, scratch):
     for kind, table, res, used in results:
         if used is not None:
             reqs_used = used
+    for kind, table, res, used in results:
+        if kind != 'reload':
+            continue
+        rule, other, rkeys = table
+        fresh, seen = res
+        contents = {'default': {}, 'grant': {rule: '@'}, 'deny': {rule: '!'}, 'other': {other: '@'}}
+        for step, name in enumerate(RELOAD_SEQ):
+            chk.evaluation(['reload', rule, step], nontrivial=True)
+            chk.count('policy_file_edits_checked', 1)
+            if seen[step] != fresh[name]:
+                ki, ci = [(a, b) for a in range(len(rkeys)) for b in range(len(cl)) if seen[step][a][b] != fresh[name][a][b]][0]
+                vio('monitor', 'policy-edit', 'policy-edit-not-effective:%s-after-%s' % (name, RELOAD_SEQ[step - 1] if step else 'start'),
+                    'after the policy file of the running service was edited to %s (previous contents: %s) %s %s as %s answers %s; '
+                    'a service started with that file answers %s' % (json.dumps(contents[name]),
+                    json.dumps(contents[RELOAD_SEQ[step - 1]] if step else {}), rkeys[ki][1], rkeys[ki][0], cl[ci][0],
+                    seen[step][ki][ci], fresh[name][ki][ci]),
+                    {'module': 'harness.props.c16', 'type': 'c16-policy-edits', 'rule': rule, 'other_rule': other, 'routes': rkeys,
+                     'file_contents_in_order': [contents[n] for n in RELOAD_SEQ[:step + 1]], 'failing_step': step,
+                     'caller_class': cl[ci][0], 'observed': seen[step][ki][ci], 'expected': fresh[name][ki][ci]})
+                break
+    results = [r for r in results if r[0] != 'reload']
     sample_reqs = requests({'g1': 0, 'g2': 0})
 
     # ---- Lean predictions for the same matrix
@@ -693,6 +766,12 @@ def replay(doc):
     scratch = tempfile.mkdtemp(prefix='c16r_', dir='/dev/shm' if os.path.isdir('/dev/shm') else None)
     try:
         _worker_init(scratch)
+        if rp.get('type') == 'c16-policy-edits':
+            _k, _t, (fresh, seen), _u = _run_reload(('reload', (rp['rule'], rp['other_rule'], rp['routes']), None))
+            bad = [i for i, n in enumerate(RELOAD_SEQ) if seen[i] != fresh[n]]
+            print('  steps whose decisions differ from those of a freshly started service: %s' % bad)
+            print('REPRODUCED' if bad else 'not reproduced')
+            return 1 if bad else 0
         pf = rp.get('policy_file') or {}
         (rule, val) = list(pf.items())[0] if pf else (None, None)
         _set_policy(rule, val)
